@@ -246,9 +246,12 @@ func (d *Docker) Walk(root *Node) (Membership, error) {
 	return m, walkErr
 }
 
-// DockerVerdictChangesWithoutInheritance is the fallback delimiter of the
-// known finding: does the Docker verdict for path (reached with the given
-// real walk) differ when per-pattern parent inheritance is switched off?
+// MatchesNoInheritance is the Docker loop with per-pattern parent inheritance
+// switched off (frozen MatchesUsingParentResult(path, false)). It is the hook
+// for the fallback delimitation of the known finding described in DESIGN §5
+// C15; the monitor does not need it as long as the documented-algorithm model
+// reproduces the real code on every compared path (it counts
+// "paths_where_documented_model_differs_from_real", which must stay absent).
 func (d *Docker) MatchesNoInheritance(path string) bool {
 	ok, _ := d.pm.MatchesWithoutParentInheritance(path)
 	return ok
